@@ -426,7 +426,7 @@ func (w *world) guarded(f func(ctx context.Context) error) (err error, hung bool
 	defer cancel()
 	done := make(chan error, 1)
 	go func() { done <- f(ctx) }()
-	limit := 20 * time.Second
+	limit := 60 * time.Second
 	select {
 	case err = <-done:
 		return err, false
@@ -501,7 +501,9 @@ func toSet(xs []int) map[int]bool {
 	return m
 }
 
-func runCase(g *dag.Graph, ops []op, seed uint64) {
+func runCase(g *dag.Graph, ops []op, seed uint64) { runCaseAttempt(g, ops, seed, 0) }
+
+func runCaseAttempt(g *dag.Graph, ops []op, seed uint64, attempt int) {
 	id := run.NewID()
 	rep := replayCase{Graph: g.Encode(), Ops: opsString(ops)}
 	fail := func(sig, msg string) {
@@ -656,9 +658,18 @@ func runCase(g *dag.Graph, ops []op, seed uint64) {
 		}
 		run.Count("op:" + kind)
 		if hung {
+			// a hang must reproduce on a fresh store; a one-off stall of the (shared, loaded)
+			// machine beyond the watchdog is not a finding: the case is run again from scratch
+			if _, again := execOnly(g, ops[:oi+1]); !again {
+				run.Count("watchdog-stall")
+				if attempt < 2 {
+					runCaseAttempt(g, ops, seed, attempt+1)
+				}
+				return
+			}
 			hangs++
 			out = append(out, o.String()+"=hang")
-			fail(kind+"-hang", fmt.Sprintf("op %d (%s) did not return within the watchdog", oi, o))
+			fail(kind+"-hang", fmt.Sprintf("op %d (%s) did not return within the watchdog (reproduced on a fresh store)", oi, o))
 			failed = true
 			break
 		}
@@ -760,6 +771,10 @@ func runCase(g *dag.Graph, ops []op, seed uint64) {
 		}
 		for k := 1; k < reps; k++ {
 			again, hung := execOnly(g, ops)
+			if hung {
+				// reproduce before reporting (see above)
+				again, hung = execOnly(g, ops)
+			}
 			if hung {
 				hangs++
 				fail("order-hang", fmt.Sprintf("repetition %d did not return within the watchdog", k))
@@ -1309,7 +1324,13 @@ func exhaustive() {
 func main() {
 	run = common.Start("C09")
 	run.Rule = "distinct (graph, history) pairs in which a Delete cascaded beyond its target or a GC removed at least one blob"
-	keepLiveDigests = probeKeepLiveDigests()
+	// (a stalled probe must not flip the answer: two equal answers in a row)
+	for a, b := probeKeepLiveDigests(), probeKeepLiveDigests(); ; a, b = b, probeKeepLiveDigests() {
+		if a == b {
+			keepLiveDigests = a
+			break
+		}
+	}
 	run.Extra["gc_keeps_live_digest_refs"] = keepLiveDigests
 	if run.Replay != "" {
 		for _, c := range common.ReadReplay(run.Replay) {
